@@ -1412,7 +1412,10 @@ impl UntypedExpr {
                 (ExprEnum::Cast(ty.clone(), Box::new(expr)), ty)
             }
             ExprEnum::Range(from, to, num_ty) => {
-                if from >= to || (to - from) > u32::MAX as u64 {
+                if from >= to
+                    || (to - from) > u32::MAX as u64
+                    || num_ty.max().is_some_and(|max| to - 1 > max)
+                {
                     let e = TypeErrorEnum::InvalidRange(*from, *to);
                     return Err(vec![Some(TypeError::new(e, meta))]);
                 }
